@@ -51,7 +51,7 @@ CHECKS = {
          "Code: the real unbatched traces must be behaviours of exactly that configuration (Lazy evaluated after every event), and for every executable instance the pulled-start-vertex count at each row is bounded by the "
          "position of the start vertex that Sem says contributes it; zero accesses before the first next() and after dropping at every prefix k <= 6.",
          "If a row could come from several start vertices the largest index is used (lenient, never a false alarm); trusts Sem!RowsFrom."),
- "C04": (MC, "6/C04", "TLC judges (a) JudgeSem: row bag of the real engine over a hint-pruning adapter = Sem.tla rows; (b) JudgeHints: every statically derived candidate the engine reports contains, over a probe universe of values that is independent of the dataset, every value satisfying the static filters on that property (Candidates!Contains vs Values!FilterOp)",
+ "C04": (MC, "6/C04", "TLC judges (a) JudgeSem: row bag of the real engine over a hint-pruning adapter = Sem.tla rows; (b) JudgeHints: every candidate the engine reports - statically derived, or dynamically resolved from tags that live on the edge's source vertex - contains, over a probe universe of values that is independent of the dataset, every value satisfying the filters on that property (Candidates!Contains vs Values!FilterOp)",
          "Every instance is executed through the Pruning adapter, which discards start vertices and neighbours outside statically/dynamically required property candidates or lacking a mandatory edge (recursively through destination().edges); TLC compares the bag with Sem. Each distinct (vertex, property, candidate) reported by statically_required_property is also judged for soundness against the static filters of the compiled query on ~40 probe values of the property's type (negative / zero / positive integers, strings, floats, booleans, null, graph values, arguments and their elements).",
          "Membership in a candidate is decided by the harness's own comparison (numeric / byte order), not by the crate's; D11 is a listed known finding."),
  "C05": (MC, "6/C05", "TLC judge (JudgeCalls/Contract!RequiredComplete): every resolve_property call of real runs is listed by every required_properties() report for that vertex",
